@@ -319,3 +319,50 @@ print(json.dumps(out))
     finally:
         shutil.rmtree(tmp, ignore_errors=True)
 
+
+def unreadable_signature(model, payload):
+    """callables whose signature inspect cannot read (classes whose constructor is a builtin's): the argument context is
+    empty, and a tracked function that instantiates / raises them evaluates to what plain execution gives"""
+    import importlib
+    import os
+    import shutil
+    import sys
+    import tempfile
+    from dds.fun_args import get_arg_ctx_ast
+
+    class Bag(dict):
+        pass
+
+    class PipeError(ValueError):
+        pass
+
+    for c in (Bag, PipeError):
+        try:
+            got = dict(get_arg_ctx_ast(c, [], OrderedDict()))
+        except BaseException as e:
+            return {"reproduced": True, "detail": "get_arg_ctx_ast(<class %s(%s)>, [], {}) raised %s: %s" % (c.__name__, c.__bases__[0].__name__, type(e).__name__, str(e)[:80]), "inputs": {"callable": "class %s(%s)" % (c.__name__, c.__bases__[0].__name__)}}
+        if got != {}:
+            return {"reproduced": True, "detail": "get_arg_ctx_ast of a class without readable signature returned %r" % (got,), "inputs": {"callable": c.__name__}}
+    import dds
+
+    d = tempfile.mkdtemp(prefix="dds_h_args_sig_")
+    sys.path.insert(0, d)
+    try:
+        open(os.path.join(d, "usig_mod.py"), "w").write("class Bag(dict):\n    def total(self):\n        return sum(self.values())\n\nclass PipeError(ValueError):\n    pass\n\ndef use_bag():\n    b = Bag()\n    b['a'] = 2\n    return b.total()\n\ndef use_error():\n    try:\n        raise PipeError('x')\n    except PipeError as e:\n        return 'caught %s' % e\n")
+        m = importlib.import_module("usig_mod")
+        dds.accept_module(m)
+        dds.set_store("memory")
+        for fn in (m.use_bag, m.use_error):
+            try:
+                got = dds.eval(fn)
+            except BaseException as e:
+                got = "<%s: %s>" % (type(e).__name__, str(e)[:80])
+            if got != fn():
+                return {"reproduced": True, "detail": "dds.eval(%s) -> %r, plain execution gives %r (the function uses a class derived from a builtin type)" % (fn.__name__, got, fn()), "inputs": {"function": fn.__name__}}
+    finally:
+        dds.set_store("memory")
+        sys.path.remove(d)
+        sys.modules.pop("usig_mod", None)
+        shutil.rmtree(d, ignore_errors=True)
+    return {"reproduced": False, "detail": "classes derived from dict / ValueError: empty argument context, evaluation equals plain execution"}
+
